@@ -14,7 +14,7 @@ func init() {
 	register(&propDef{
 		ID: "C14",
 		Meta: propMeta{
-			Explanation: "Decides the structural part of request isolation: (R14a) no package-level variable of the module is written from code reachable from a concurrent entry point (every route handler, every HTTP middleware closure, the worker's RPC handler and health loop, the server's health loop, the worker-token monitor) unless the write holds a mutex, runs inside a sync.Once.Do closure, or is in the reasoned table (initialisation before the goroutine that shares the variable exists) — so no signer or helper can keep request state in a package variable; (R14b) lock discipline for the frozen table of shared objects: every access to Cache.keys, signinit.ts, WorkerToken.procs, Closed.err, the health counters and the PKCS#11 provider map holds the mutex that guards it (constructors of a not-yet-shared object excepted); (R14c) the per-request objects are fresh allocations: audit.New, signinit.Init's SignOpts and Signer.FlagsFromQuery return newly allocated values that do not alias package state; (R14d) shutdown waits: Daemon.Close runs httpServer.Shutdown before Server.Close inside the errgroup whose Wait it returns, and Server.Close signals the health loop before closing tokens; (R14e) an object handed back to a sync.Pool is not used again by the function that returned it (zero instances today; positive control in testdata/ctl/pool); (R14f) for each of the module's go statements, the spawning function does not use a mutable object it handed to the goroutine (captured variable or argument of pointer, map, slice or interface type without its own synchronisation) before a join (receive on a channel the goroutine signals, WaitGroup/errgroup Wait); R14b distinguishes shared (RLock) from exclusive holds, a write needs the exclusive one. R14c also covers signinit.InitKey (the certificate bundle Init writes the per-request timestamper into) and follows module constructors recursively; R14d also requires that Server.Close has no caller besides Daemon.Close's drain step and constructor clean-up paths that hand out no server; R14e also requires that memory put into a pool is not returned uncopied elsewhere and that a method pooling an object held in its receiver clears the field.",
+			Explanation: "Decides the structural part of request isolation: (R14a) no package-level variable of the module is written from code reachable from a concurrent entry point (every route handler, every HTTP middleware closure, the worker's RPC handler and health loop, the server's health loop, the worker-token monitor) unless the write holds a mutex, runs inside a sync.Once.Do closure, or is in the reasoned table (initialisation before the goroutine that shares the variable exists) — so no signer or helper can keep request state in a package variable; (R14b) lock discipline for the frozen table of shared objects: every access to Cache.keys, signinit.ts, WorkerToken.procs, Closed.err, the health counters and the PKCS#11 provider map holds the mutex that guards it (constructors of a not-yet-shared object excepted); (R14c) the per-request objects are fresh allocations: audit.New, signinit.Init's SignOpts and Signer.FlagsFromQuery return newly allocated values that do not alias package state; (R14d) shutdown waits: Daemon.Close runs httpServer.Shutdown before Server.Close inside the errgroup whose Wait it returns, and Server.Close signals the health loop before closing tokens; (R14e) an object handed back to a sync.Pool is not used again by the function that returned it (zero instances today; positive control in testdata/ctl/pool); (R14f) for each of the module's go statements, the spawning function does not use a mutable object it handed to the goroutine (captured variable or argument of pointer, map, slice or interface type without its own synchronisation) before a join (receive on a channel the goroutine signals, WaitGroup/errgroup Wait); R14b distinguishes shared (RLock) from exclusive holds, a write needs the exclusive one. R14c also covers signinit.InitKey (the certificate bundle Init writes the per-request timestamper into) and follows module constructors recursively; R14d also requires that Server.Close has no caller besides Daemon.Close's drain step and constructor clean-up paths that hand out no server; R14e also requires that memory put into a pool is not returned uncopied elsewhere and that a method pooling an object held in its receiver clears the field. (R14g) no closure with the signature of an HTTP handler captures a zerolog.Context from an enclosing scope: the per-request log context is derived inside the handler. (R14h) no function returns (*bytes.Buffer).Bytes() of a buffer that is a field of an object reached from a parameter or a package variable: scratch buffers of long-lived objects are not handed out.",
 			NotDecided:  "race freedom of heap objects in general (no points-to / may-happen-in-parallel analysis is available: x/tools v0.29.0 has no go/pointer), deadlock freedom, response mix-ups inside net/http. The atomic/plain mix in internal/closeonce is only noted: its sole lock-free reader cannot overlap the writer (WorkerToken.Close waits for spawners first), so arming it would be a false alarm.",
 			Assumptions: []string{"prometheus collectors, zerolog and rate.Limiter are internally synchronised", "sync.Once.Do runs its function once with a happens-before edge to every return of Do"},
 		},
@@ -221,6 +221,16 @@ func runC14(c *Ctx) {
 		c.Check(f.OK, "R14e", f.Key, f.Pos, "the field is cleared", f.Detail)
 	}
 	c.runControl("R14e pooled object kept in the receiver", "twice.w).Close", poolDoublePut)
+	c.Rule("R14g", "a request handler closure captures no value of a type that accumulates into its own buffer (zerolog.Context)", 0)
+	for _, f := range handlerCaptures(p) {
+		c.Check(f.OK, "R14g", f.Key, f.Pos, "", f.Detail)
+	}
+	c.runControl("R14g shared log context control (ctl/sharedctx.Middleware)", "sharedctx.", handlerCaptures)
+	c.Rule("R14h", "no function returns the bytes of a buffer that lives in a longer-lived object", 0)
+	for _, f := range sharedBufferViews(p) {
+		c.Check(f.OK, "R14h", f.Key, f.Pos, "", f.Detail)
+	}
+	c.runControl("R14h shared buffer view control (ctl/sharedbuf.Client)", "sharedbuf.", sharedBufferViews)
 	sites, shares := goroutineShares(p)
 	badGo := map[*ssa.Go][]goShare{}
 	for _, s := range shares {
